@@ -35,8 +35,8 @@ CLAIMED = {
    ref="8 (C14)"),
  "C20": dict(
    text=("Deductive proof that actualWrittenSize returns exactly the caller bytes among the first n bytes of bytes.Join(lines, prefix) (recursive spec "
-         "cb taken from the documented Join semantics), never negative, never more than the bytes accepted nor than the caller's bytes; Write returns "
-         "len(buf) on success and 0,nil for an empty argument; NewWriter returns w itself for an empty indent. Not decided: chunk-independence of the "
+         "cb taken from the documented Join semantics), never negative, never more than the bytes accepted; Write returns "
+         "len(buf) on success and 0,nil for an empty argument; NewWriter returns w itself for an empty indent. Bounded (labelled): chunk-independence of the rendered bytes and the count returned under short writes, exhaustively for short texts. Not decided: chunk-independence of the "
          "rendered bytes (needs Join/SplitAfter content reasoning), Write's byte count against the ghost number of bytes the underlying writer took."),
    ref="8 (C20)"),
  "C12": dict(
@@ -63,6 +63,16 @@ CLAIMED = {
          "loading an imported module leaves existing trees alone. Not decided: the path<->node round trip as one theorem (induction over C04's tree "
          "invariant, on paper), the result of ToEntry for a foreign module."),
    ref="8 (C17)"),
+ "C04": dict(
+   text=("Deductive proof, with loop invariants over nondeterministic map iteration, of the tree-building operations on the real functions: add (files the "
+         "child, points it back, never overwrites, reports a taken key), delete, dup (the copy and everything below it is fresh, re-parented, same keys, "
+         "names and kinds; list attributes and rpc input/output copied; nothing that existed is written; terminates), merge (never overwrites, grafted "
+         "children fresh and re-parented with the given namespace/prefix, collisions reported, the source tree -- slice backing arrays included -- "
+         "untouched), FixChoice's wrapping loop (every child of a choice becomes a case, fresh case entries correctly linked), importErrors, newError, "
+         "errorf/addError; Find's lazily created input/output are linked into the tree. Bounded (labelled): a tree-shape walker over every entry of 10 "
+         "module sets in all load orders, incl. late-arising errors. Not decided: that ToEntry (reflection) establishes the shape, checkErrors/GetErrors "
+         "as contracts (callback), the recursion of FixChoice."),
+   ref="8 (C04)"),
 }
 
 NOT_REACHED = {}
